@@ -303,7 +303,7 @@ func c01Record(u *c01Universe, e *c01Env, bad []string) {
 }
 
 func TestC01_TrustRule(t *testing.T) {
-	vk.Check(t, 6000, func(rt *rapid.T) {
+	vk.Check(t, 15000, func(rt *rapid.T) {
 		u := c01DrawUniverse(rt, false)
 		for k := 0; k < 4; k++ {
 			e := c01DrawEnv(rt, u, k < 2 && rapid.Bool().Draw(rt, "clean"))
@@ -324,7 +324,7 @@ func TestC01_TrustRule(t *testing.T) {
 // Re-checking a previously accepted certificate gives the same verdict as a full check, after any
 // sequence of blocklist edits, pool rebuilds and time changes.
 func TestC01_CachedRecheck(t *testing.T) {
-	vk.Check(t, 3000, func(rt *rapid.T) {
+	vk.Check(t, 7000, func(rt *rapid.T) {
 		u := c01DrawUniverse(rt, true)
 		e := c01DrawEnv(rt, u, true)
 		e.mask[u.leaf.issuerCA] = true
